@@ -26,6 +26,9 @@ type Scope struct {
 	err   error
 	depth int
 	qdepth int
+	// fresh(x) at a call site means "allocated during that call": above every reference that exists in the caller
+	// when the call is made (freshLo) and inside the block of references reserved for the callee (freshHi, 0 = open)
+	freshLo, freshHi int64
 }
 
 func (sc *Scope) fail(format string, a ...interface{}) *sv {
@@ -811,13 +814,32 @@ func (sc *Scope) call(e *SExpr) *sv {
 		return &sv{v: &Val{T: types.Typ[types.Float32], L: []Term{{SF32, "((_ to_fp 8 24) " + v.L[0].T + ")"}}}}
 	case "fresh":
 		x := sc.eval(e.Args[0]).v
-		return boolVal(app(SBool, ">", x.L[0], intConst(allocBase)))
+		lo := int64(allocBase)
+		if sc.freshLo > 0 {
+			lo = sc.freshLo
+		}
+		t := app(SBool, ">", x.L[0], intConst(lo))
+		if sc.freshHi > 0 {
+			t = mkAnd(t, app(SBool, "<=", x.L[0], intConst(sc.freshHi)))
+		}
+		return boolVal(t)
 	case "isLE":
 		x := sc.eval(e.Args[0]).v
 		return boolVal(mkEq(x.L[0], intConst(leTag(ft.e))))
 	case "isBE":
 		x := sc.eval(e.Args[0]).v
 		return boolVal(mkEq(x.L[0], intConst(beTag(ft.e))))
+	case "dyn":
+		// dyn(x, "T"): the value of dynamic type T carried by interface x (meaningful where typeIs(x, "T"))
+		x := sc.eval(e.Args[0]).v
+		t := sc.typeByName(e.Args[1].Name)
+		if t == nil || len(x.L) != 2 {
+			return sc.fail("dyn: unknown type %s or non-interface argument", e.Args[1].Name)
+		}
+		if isPointer(t) {
+			return &sv{v: &Val{T: t, L: []Term{x.L[1]}}}
+		}
+		return &sv{v: ft.unbox(x.L[1], t, "dyn")}
 	case "typeIs":
 		x := sc.eval(e.Args[0]).v
 		return boolVal(mkEq(x.L[0], intConst(int64(ft.e.typeID(e.Args[1].Name)))))
@@ -1054,22 +1076,52 @@ func (fr *frame) resolver(li *loopInfo, over map[*ssa.Phi]*Val) func(string) *Va
 			}
 		}
 		// debug references: latest value bound to a variable of that name whose definition dominates here
+		// Several variables may share the name (e.g. the `i` of two consecutive loops): the one declared
+		// last among those with a dominating definition wins — deterministic, and the innermost/most recent
+		// declaration in straight-line code.
 		var best ssa.Value
+		var bestPos token.Pos = -1
 		for obj, vs := range fr.dbg {
 			if obj.Name() != name {
 				continue
 			}
+			var cand ssa.Value
 			for _, v := range vs {
 				if in, ok := v.(ssa.Instruction); ok && fr.curBlock != nil {
 					if in.Block() != fr.curBlock && !in.Block().Dominates(fr.curBlock) {
 						continue
 					}
 				}
-				best = v
+				cand = v
+			}
+			if cand != nil && obj.Pos() > bestPos {
+				best, bestPos = cand, obj.Pos()
 			}
 		}
 		if best != nil {
 			return fr.val(best)
+		}
+		// address-taken local (arrays that are sliced, variables captured by closures): its current content
+		var bestA ssa.Value
+		bestPos = -1
+		for obj, a := range fr.dbgAddr {
+			if obj.Name() != name {
+				continue
+			}
+			if in, ok := a.(ssa.Instruction); ok && fr.curBlock != nil {
+				if in.Block() != fr.curBlock && !in.Block().Dominates(fr.curBlock) {
+					continue
+				}
+			}
+			if _, isPtr := a.Type().Underlying().(*types.Pointer); !isPtr || fr.vals[a] == nil {
+				continue
+			}
+			if obj.Pos() > bestPos {
+				bestA, bestPos = a, obj.Pos()
+			}
+		}
+		if bestA != nil {
+			return fr.loadFrom(fr.vals[bestA], bestA.Type().Underlying().(*types.Pointer).Elem(), token.NoPos)
 		}
 		return nil
 	}
